@@ -106,6 +106,10 @@ def _cmp(a, op, b, canon):
     if isinstance(op, (ast.NotEq, ast.IsNot)):
         x, y = sorted((ca, cb))
         return neg(("eq", x, y))
+    if isinstance(op, (ast.In, ast.NotIn)) and isinstance(b, (ast.Tuple, ast.List, ast.Set)) and b.elts and all(isinstance(e, ast.Constant) for e in b.elts):
+        # membership in a literal collection of constants: one of the equalities
+        f = ("or", tuple(("eq",) + tuple(sorted((ca, canon(e)))) for e in b.elts))
+        return f if isinstance(op, ast.In) else neg(f)
     if isinstance(op, ast.In):
         return ("in", ca, cb)
     if isinstance(op, ast.NotIn):
